@@ -1,7 +1,7 @@
 (* C16 - Computational-basis state calculus matches the state vector. *)
 From Coq Require Import ZArith NArith List Bool Reals.
 From QP Require Import Cx Apply.
-From QPM Require Import Pauli CompBasis SuperPos.
+From QPM Require Import Pauli CompBasis SuperPos PrepCircuit.
 Import ListNotations.
 
 (* one Pauli gate: i^phase' |bits'> = sigma_index (i^phase |bits>), every qubit count, every
@@ -40,6 +40,23 @@ Theorem lowest_differing_bit_differs : forall x y d, lowbit (N.lxor x y) = Some 
   N.testbit x (N.of_nat d) <> N.testbit y (N.of_nat d).
 Proof. exact lowbit_is_a_differing_bit. Qed.
 Print Assumptions superposition_builder_prepares_the_superposition.
+
+(* ComputationalBasisState.circuit - an X gate on every set bit below n_qubits (prep_idx, run against the real
+   property by corr_C16.py) - prepares the basis vector: every register size, every bit pattern *)
+Theorem preparation_circuit_prepares_the_basis_vector :
+  forall n bits b, csem (prep n bits) (CompBasis.ket n 0%N) b = CompBasis.ket n bits b.
+Proof. exact prep_prepares. Qed.
+Print Assumptions preparation_circuit_prepares_the_basis_vector.
+
+(* chains mixing Pauli and non-Pauli gates: the general state over circuit + gates that with_gates_applied returns is,
+   times the tracked phase, the gates applied to the vector i^phase |bits> of the basis state it was derived from -
+   any gates, any register, any bits and phase (so Pauli prefixes absorbed by the bookkeeping compose with it through
+   pauli_sequence_bookkeeping_exact) *)
+Theorem mixed_chain_state_is_the_gates_applied_to_the_tracked_vector :
+  forall n bits ph (gs : list lgate) b,
+  Cmul (CompBasis.ipow ph) (csem (prep n bits ++ gs) (CompBasis.ket n 0%N) b) = csem gs (CompBasis.vec (n, bits, ph)) b.
+Proof. exact mixed_chain_state. Qed.
+Print Assumptions mixed_chain_state_is_the_gates_applied_to_the_tracked_vector.
 
 Example c16_example :
   add_paulis (3%nat, 5%N, 0%Z) [(0%nat, PY); (1%nat, PX); (2%nat, PZ); (0%nat, PY)]
